@@ -32,23 +32,22 @@ def generate(repo):
     bcall = [chr_code(t) for t in re.findall(r"'\\?.'|[0-9a-fA-FxX]+", m.group(1))]
     if len(baddr) != enc_size or len(bcall) != call_size:
         raise AnchorError("broadcast constants do not fill their arrays")
-    # ---- encode_callsign
-    e = find1(r"static\s+encoded_call_t\s+encode_callsign\s*\(\s*call_t\s+callsign\s*,\s*bool\s+strict\s*=\s*false\s*\)\s*\{(.*?)\n    \}", h,
-              "encode_callsign body").group(1)
-    find1(r"uint64_t\s+encoded\s*=\s*0\s*;", e, "uint64_t encoded = 0")
-    find1(r"std::reverse\s*\(\s*callsign\.begin\(\)\s*,\s*callsign\.end\(\)\s*\)\s*;\s*for\s*\(\s*auto\s+c\s*:\s*callsign\s*\)", e,
-          "reverse, then loop over callsign")
-    enc_mul = cint(find1(r"for\s*\(\s*auto\s+c\s*:\s*callsign\s*\)\s*\{\s*encoded\s*\*=\s*(\w+)\s*;", e, "encoded *= 40 first in the loop").group(1))
-    chain = e[e.index("encoded *="):]
+    # ---- encode_callsign  (identifiers are not anchored: a renamed local is not a change of behaviour)
+    e = find1(r"static\s+encoded_call_t\s+encode_callsign\s*\(\s*call_t\s+\w+\s*,\s*bool\s+(\w+)\s*=\s*false\s*\)\s*\{(.*?)\n    \}", h,
+              "encode_callsign body")
+    strict_name, e = e.group(1), e.group(2)
+    m = find1(r"for\s*\(\s*(?:auto|char)\s+(\w+)\s*:\s*\w+\s*\)\s*\{\s*(\w+)\s*\*=\s*(\w+)\s*;", e, "for (auto c : callsign) { encoded *= 40;")
+    cv, ev, enc_mul = re.escape(m.group(1)), re.escape(m.group(2)), cint(m.group(3))
+    chain = e[m.end():]
     ranges = []
-    pos = 0
+    AND = r"(?:and|&&)"
     # the chain in source order: ranges "c >= 'A' and c <= 'Z'" with "encoded += c - 'A' + k", singles "c == '-'" with "encoded += k"
     pat = re.compile(
-        r"(?:else\s+)?if\s*\(\s*c\s*>=\s*('.')\s*(?:and|&&)\s*c\s*<=\s*('.')\s*\)\s*\{\s*encoded\s*\+=\s*c\s*-\s*('.')\s*\+\s*(\d+)\s*;\s*\}"
-        r"|else\s+if\s*\(\s*c\s*==\s*('.')\s*\)\s*\{\s*encoded\s*\+=\s*(\d+)\s*;\s*\}"
-        r"|else\s+if\s*\(\s*strict\s*\)\s*\{\s*throw\s+std::invalid_argument\s*\([^)]*\)\s*;\s*\}")
+        r"(?:else\s+)?if\s*\(\s*%(c)s\s*>=\s*('.')\s*%(a)s\s*%(c)s\s*<=\s*('.')\s*\)\s*\{\s*%(e)s\s*\+=\s*%(c)s\s*-\s*('.')\s*\+\s*(\d+)\s*;\s*\}"
+        r"|else\s+if\s*\(\s*%(c)s\s*==\s*('.')\s*\)\s*\{\s*%(e)s\s*\+=\s*(\d+)\s*;\s*\}"
+        r"|else\s+if\s*\(\s*%(s)s\s*\)\s*\{\s*throw\s+std::invalid_argument\s*\([^)]*\)\s*;\s*\}" % {"c": cv, "e": ev, "a": AND, "s": re.escape(strict_name)})
     seen_strict = False
-    p = chain.index(";") + 1
+    p = 0
     while True:
         m = pat.match(chain, _skip_ws(chain, p))
         if not m:
@@ -65,24 +64,24 @@ def generate(repo):
             seen_strict = True
         p = m.end()
     rest = chain[_skip_ws(chain, p):]
-    if not seen_strict or not ranges or not re.match(r"\}\s*const\s+auto\s+p\s*=\s*reinterpret_cast\s*<\s*uint8_t\s*\*\s*>\s*\(\s*&encoded\s*\)\s*;", rest):
+    if not seen_strict or not ranges or not re.match(r"\}\s*(?:const\s+)?auto\s+\w+\s*=\s*reinterpret_cast\s*<", rest):
         raise AnchorError("encode_callsign: if/else-if chain not recognised (" + rest[:60].replace("\n", " ") + ")")
-    m = find1(r"std::copy\s*\(\s*p\s*,\s*p\s*\+\s*(\d+)\s*,\s*result\.rbegin\(\)\s*\)\s*;", e, "copy of the low bytes")
-    enc_copy = int(m.group(1))
+    m = find1(r"std::copy\s*\(\s*(\w+)\s*,\s*\1\s*\+\s*(\d+)\s*,\s*\w+\.rbegin\(\)\s*\)\s*;", e, "copy of the low bytes, reversed")
+    enc_copy = int(m.group(2))
     # ---- decode_callsign
-    d = find1(r"static\s+call_t\s+decode_callsign\s*\(\s*encoded_call_t\s+callsign\s*,\s*bool\s+strict\s*=\s*false\s*\)\s*\{(.*?)\n    \}", raw,
+    d = find1(r"static\s+call_t\s+decode_callsign\s*\(\s*encoded_call_t\s+\w+\s*,\s*bool\s+\w+\s*=\s*false\s*\)\s*\{(.*?)\n    \}", raw,
               "decode_callsign body").group(1)
-    m = find1(r'static\s+const\s+char\s+callsign_map\[\]\s*=\s*"([^"\\]*)"\s*;', d, "callsign_map")
-    table = [ord(c) for c in m.group(1)] + [0]      # the string literal's terminating NUL is part of the array
+    m = find1(r'static\s+(?:const|constexpr)\s+char\s+(\w+)\[\]\s*=\s*"([^"\\]*)"\s*;', d, "callsign_map")
+    tv = re.escape(m.group(1))
+    table = [ord(c) for c in m.group(2)] + [0]      # the string literal's terminating NUL is part of the array
     d = strip_cpp_comments(d)
-    find1(r"if\s*\(\s*callsign\s*==\s*BROADCAST_ADDRESS\s*\)\s*\{\s*result\s*=\s*BROADCAST_CALL\s*;\s*return\s+result\s*;\s*\}", d, "broadcast test")
-    find1(r"uint64_t\s+encoded\s*=\s*0\s*;.*?std::copy\s*\(\s*callsign\.rbegin\(\)\s*,\s*callsign\.rend\(\)\s*,\s*p\s*\)\s*;", d, "little-endian reassembly")
-    find1(r"result\.fill\s*\(\s*0\s*\)\s*;\s*size_t\s+index\s*=\s*0\s*;", d, "result.fill(0); index = 0")
-    m = find1(r"while\s*\(\s*encoded\s*(?:&&\s*index\s*!=\s*result\.size\(\)\s*-\s*(\d+)\s*)?\)\s*\{\s*"
-              r"result\s*\[\s*index\+\+\s*\]\s*=\s*callsign_map\s*\[\s*encoded\s*%\s*(\d+)\s*\]\s*;\s*encoded\s*/=\s*(\d+)\s*;\s*\}", d,
+    m = find1(r"while\s*\(\s*(\w+)\s*(?:&&\s*(\w+)\s*!=\s*(\w+)\.size\(\)\s*(?:-\s*(\d+)\s*)?)?\)\s*\{\s*"
+              r"(\w+)\s*\[\s*(\w+)\+\+\s*\]\s*=\s*%s\s*\[\s*\1\s*%%\s*(\d+)\s*\]\s*;\s*\1\s*/=\s*(\d+)\s*;\s*\}" % tv, d,
               "decode digit loop")
-    bound = m.group(1)
-    dec_mod, dec_div = int(m.group(2)), int(m.group(3))
+    bound = m.group(4) if m.group(2) is None or m.group(4) is not None else "0"
+    if m.group(2) is not None and (m.group(2) != m.group(6) or m.group(3) != m.group(5)):
+        raise AnchorError("decode digit loop: the bound is not on the index / array that is written")
+    dec_mod, dec_div = int(m.group(7)), int(m.group(8))
     out.append(f"Definition call_size : nat := {call_size}.")
     out.append(f"Definition enc_size : nat := {enc_size}.")
     out.append(f"Definition enc_copy : nat := {enc_copy}.   (* std::copy(p, p + {enc_copy}, result.rbegin()) *)")
